@@ -3,6 +3,7 @@ package vc
 import (
 	"fmt"
 	"math/big"
+	"regexp"
 	"strings"
 )
 
@@ -387,10 +388,191 @@ func (c *Ctx) Script(mark int, goal Term, comment string) string {
 	var sb strings.Builder
 	sb.WriteString("; " + strings.ReplaceAll(comment, "\n", " ") + "\n")
 	sb.WriteString("(set-option :produce-models true)\n(set-logic ALL)\n")
+	var body strings.Builder
 	for _, it := range c.Items[:mark] {
-		sb.WriteString(it.Text)
-		sb.WriteByte('\n')
+		body.WriteString(it.Text)
+		body.WriteByte('\n')
 	}
-	fmt.Fprintf(&sb, "(assert (not %s))\n(check-sat)\n", goal.S)
+	fmt.Fprintf(&body, "(assert (not %s))\n(check-sat)\n", goal.S)
+	bs := body.String()
+	sb.WriteString(bridgePrelude(bs))
+	sb.WriteString(bs)
 	return sb.String()
+}
+
+// ----- mathematical integers (Go's 64-bit "wide" integer types are modelled as Int
+// with explicit wrap-around, see wrapInt) --------------------------------------------
+
+func isIntLit(t Term) (int64, bool) {
+	var v int64
+	if _, err := fmt.Sscanf(t.S, "(- %d)", &v); err == nil && strings.HasPrefix(t.S, "(- ") && strings.Count(t.S, " ") == 1 {
+		return -v, true
+	}
+	for i, c := range t.S {
+		if c < '0' || c > '9' {
+			return 0, false
+		}
+		_ = i
+	}
+	if t.S == "" {
+		return 0, false
+	}
+	if _, err := fmt.Sscanf(t.S, "%d", &v); err == nil {
+		return v, true
+	}
+	return 0, false
+}
+
+func IntBig(v *big.Int) Term {
+	if v.Sign() < 0 {
+		return Term{"(- " + new(big.Int).Neg(v).String() + ")", SInt}
+	}
+	return Term{v.String(), SInt}
+}
+
+func IAdd(a, b Term) Term {
+	if a.S == "0" {
+		return b
+	}
+	if b.S == "0" {
+		return a
+	}
+	if x, ok := isIntLit(a); ok {
+		if y, ok := isIntLit(b); ok {
+			return IntT(x + y)
+		}
+	}
+	return app(SInt, "+", a, b)
+}
+
+func ISub(a, b Term) Term {
+	if b.S == "0" {
+		return a
+	}
+	if a.S == b.S {
+		return IntT(0)
+	}
+	if x, ok := isIntLit(a); ok {
+		if y, ok := isIntLit(b); ok {
+			return IntT(x - y)
+		}
+	}
+	return app(SInt, "-", a, b)
+}
+
+func IMul(a, b Term) Term { return app(SInt, "*", a, b) }
+func ILe(a, b Term) Term  { return icmp("<=", a, b) }
+func ILt(a, b Term) Term  { return icmp("<", a, b) }
+func IGe(a, b Term) Term  { return icmp(">=", a, b) }
+func IGt(a, b Term) Term  { return icmp(">", a, b) }
+
+func icmp(op string, a, b Term) Term {
+	if x, ok := isIntLit(a); ok {
+		if y, ok := isIntLit(b); ok {
+			var r bool
+			switch op {
+			case "<=":
+				r = x <= y
+			case "<":
+				r = x < y
+			case ">=":
+				r = x >= y
+			case ">":
+				r = x > y
+			}
+			if r {
+				return True
+			}
+			return False
+		}
+	}
+	return app(SBool, op, a, b)
+}
+
+// InRange: lo <= x < hi
+func InRange(x, lo, hi Term) Term { return And(ILe(lo, x), ILt(x, hi)) }
+
+// Bv2Nat: the unsigned value of a bit-vector as a mathematical integer. The conversion
+// functions b2i_W / i2b_W are declared uninterpreted with the axioms emitted by
+// bridgePrelude (range, mutual inverse, monotonicity, ground values of every literal that
+// occurs): every axiom is a true statement about bv2nat / int2bv, so the encoding is sound;
+// the solvers' built-in bv2nat proved far too slow (5 s for a one-line lemma).
+func Bv2Nat(a Term) Term {
+	w := sortWidth(a.Sort)
+	var lit int64
+	if _, err := fmt.Sscanf(a.S, "(_ bv%d ", &lit); err == nil && strings.HasPrefix(a.S, "(_ bv") {
+		return IntT(lit)
+	}
+	return app(SInt, fmt.Sprintf("b2i_%d", w), a)
+}
+
+// Int2BV: the w-bit vector of x mod 2^w.
+func Int2BV(x Term, w int) Term {
+	if v, ok := isIntLit(x); ok {
+		return BV(v, w)
+	}
+	m := IntBig(new(big.Int).Lsh(big.NewInt(1), uint(w)))
+	return app(BVSort(w), fmt.Sprintf("i2b_%d", w), app(SInt, "mod", x, m))
+}
+
+var bvLitRe = regexp.MustCompile(`\(_ bv([0-9]+) ([0-9]+)\)`)
+
+// bridgePrelude declares the conversion functions used in body and their axioms.
+func bridgePrelude(body string) string {
+	var sb strings.Builder
+	for _, w := range []int{8, 16, 32, 64} {
+		b2i := fmt.Sprintf("b2i_%d", w)
+		i2b := fmt.Sprintf("i2b_%d", w)
+		if !strings.Contains(body, "("+b2i+" ") && !strings.Contains(body, "("+i2b+" ") {
+			continue
+		}
+		srt := BVSort(w)
+		lim := new(big.Int).Lsh(big.NewInt(1), uint(w)).String()
+		fmt.Fprintf(&sb, "(declare-fun %s (%s) Int)\n(declare-fun %s (Int) %s)\n", b2i, srt, i2b, srt)
+		fmt.Fprintf(&sb, "(assert (forall ((x %s)) (! (and (<= 0 (%s x)) (< (%s x) %s) (= (%s (%s x)) x)) :pattern ((%s x)))))\n", srt, b2i, b2i, lim, i2b, b2i, b2i)
+		fmt.Fprintf(&sb, "(assert (forall ((i Int)) (! (=> (and (<= 0 i) (< i %s)) (= (%s (%s i)) i)) :pattern ((%s i)))))\n", lim, b2i, i2b, i2b)
+		fmt.Fprintf(&sb, "(assert (forall ((x %s) (y %s)) (! (= (bvult x y) (< (%s x) (%s y))) :pattern ((%s x) (%s y)))))\n", srt, srt, b2i, b2i, b2i, b2i)
+		seen := map[string]bool{}
+		for _, m := range bvLitRe.FindAllStringSubmatch(body, -1) {
+			if m[2] != fmt.Sprint(w) || seen[m[1]] {
+				continue
+			}
+			seen[m[1]] = true
+			fmt.Fprintf(&sb, "(assert (= (%s (_ bv%s %d)) %s))\n", b2i, m[1], w, m[1])
+		}
+		for _, v := range []string{"0", "1"} {
+			if !seen[v] {
+				fmt.Fprintf(&sb, "(assert (= (%s (_ bv%s %d)) %s))\n", b2i, v, w, v)
+			}
+		}
+	}
+	return sb.String()
+}
+
+var two63 = new(big.Int).Lsh(big.NewInt(1), 63)
+var two64 = new(big.Int).Lsh(big.NewInt(1), 64)
+
+// wrapInt reduces a mathematical result z (known to be within one modulus of the range,
+// as after one addition or subtraction of in-range operands) into the 64-bit range.
+func wrapInt(z Term, signed bool) Term {
+	if _, ok := isIntLit(z); ok {
+		return z
+	}
+	m := IntBig(two64)
+	if signed {
+		hi := IntBig(two63)
+		lo := IntBig(new(big.Int).Neg(two63))
+		return Ite(IGe(z, hi), app(SInt, "-", z, m), Ite(ILt(z, lo), app(SInt, "+", z, m), z))
+	}
+	return Ite(IGe(z, m), app(SInt, "-", z, m), Ite(ILt(z, IntT(0)), app(SInt, "+", z, m), z))
+}
+
+// wrapIntMod reduces an arbitrary mathematical integer into the 64-bit range.
+func wrapIntMod(z Term, signed bool) Term {
+	m := IntBig(two64)
+	if signed {
+		h := IntBig(two63)
+		return app(SInt, "-", app(SInt, "mod", app(SInt, "+", z, h), m), h)
+	}
+	return app(SInt, "mod", z, m)
 }
